@@ -92,6 +92,41 @@ def run(chk):
             if bad12.any():
                 p = np.unravel_index(np.argmax(np.where(bad12, e12, 0)), e12.shape)
                 chk.fail(f"g_12-displacement:{tag}", f"g_12 != e_x.e_y on {tag}: real grid (cosines code/true)", dict(where, index=list(map(int, p)), cos_code=float(cos_code[p]), cos_true=float(cos_true[p])))
+            # ---- poloidal part of g_22 at the y-faces (ylow), including the faces on region joins:
+            #      e_y*dy there = two-chord distance centre(j-1) -> face(j) -> centre(j)
+            Rc, Zc = A["Rxy"]["centre"], A["Zxy"]["centre"]
+            pol_y = A["g_22"]["ylow"] - (A["Rxy"]["ylow"] * A["dphidy"]["ylow"]) ** 2
+            ny = Rc.shape[1]
+            for j in range(0, ny + 1):
+                if 0 < j < ny:
+                    Rm, Zm = Rc[:, j - 1], Zc[:, j - 1]
+                    Rp, Zp = Rc[:, j], Zc[:, j]
+                elif j == 0 and r["connections"]["lower"] is not None:
+                    nb = g.d["regions"][r["connections"]["lower"]]["arrays"]
+                    Rm, Zm = nb["Rxy"]["centre"][:, -1], nb["Zxy"]["centre"][:, -1]
+                    Rp, Zp = Rc[:, 0], Zc[:, 0]
+                elif j == ny and r["connections"]["upper"] is not None:
+                    nb = g.d["regions"][r["connections"]["upper"]]["arrays"]
+                    Rm, Zm = Rc[:, -1], Zc[:, -1]
+                    Rp, Zp = nb["Rxy"]["centre"][:, 0], nb["Zxy"]["centre"][:, 0]
+                else:
+                    continue
+                two = np.hypot(Ry[:, j] - Rm, Zy[:, j] - Zm) + np.hypot(Rp - Ry[:, j], Zp - Zy[:, j])
+                ey = np.sqrt(np.abs(pol_y[:, j])) * A["dy"]["ylow"][:, j]
+                okx = np.ones(len(two), dtype=bool)
+                if j == 0:
+                    okx[0] = r["xPointsAtStart"][r["radialIndex"]] is None
+                    okx[-1] = r["xPointsAtStart"][r["radialIndex"] + 1] is None
+                if j == ny:
+                    okx[0] = r["xPointsAtEnd"][r["radialIndex"]] is None
+                    okx[-1] = r["xPointsAtEnd"][r["radialIndex"] + 1] is None
+                rel = np.abs(ey - two) / two
+                if okx.any():
+                    worst["g22y"] = max(worst.get("g22y", 0.0), float(rel[okx].max()))
+                    if rel[okx].max() > 0.12:
+                        i = int(np.argmax(np.where(okx, rel, 0)))
+                        chk.fail(f"g_22-poloidal-ylow:{tag}", "poloidal part of g_22 at a y-face != squared displacement between the adjacent cell centres per unit dy",
+                                 dict(where, x_index=i, y_face=j, at_join=j in (0, ny), sqrt_g22pol_dy=float(ey[i]), two_chord_distance=float(two[i])))
         stats[g.name] = {k: float(f"{v:.3g}") for k, v in worst.items()}
         chk.count(evaluations=npts, distinct=npts)
     chk.notes["grid_oracle_worst"] = stats
